@@ -30,6 +30,9 @@ sys.path.insert(0, F.VERIF)
 from specs import utf8 as spec  # noqa: E402
 
 LEVEL = "other"
+IMPORTS = [
+    ("C14", ("C14.reset", "C14.atomic"), "after the in-place tokenisation the editor's length no longer describes well-formed text: a reset must precede every exit, or a later echo / Enter hands out a stale tail cut inside a character"),
+]
 
 
 class InlineLocal:
